@@ -32,6 +32,17 @@ def make_fn(kind):
     elif kind == "poly":           # same name, value-dependent body: inconsistent equation sets
         @qb.subqap("poly")
         def f(x): return x * x * x if x.value % 2 else x * x
+    elif kind == "perm":           # value-dependent body whose two variants differ only by a permutation of the tokens of a line
+        @qb.subqap("perm")
+        def f(x, y): return (x * 2) * y if x.value % 2 else y * y
+    elif kind == "perm2":          # ... or by the order of two equations
+        @qb.subqap("perm2")
+        def f(x, y):
+            if x.value % 2:
+                u = x * y; v = y * y
+            else:
+                v = y * y; u = x * y
+            return u + 3 * v
     else: raise ValueError(kind)
     return f
 
